@@ -119,7 +119,7 @@ def execute(schedule) -> Result:
         want = bfs(path[-1], target_name)
         try:
             with contextlib.redirect_stdout(io.StringIO()):
-                got = obj.search(sid[target_name], debug=bool(i % 2))
+                got = obj.search(sid[target_name])
         except ValueError:
             got = "ValueError"
         except Exception as e:  # noqa: BLE001
@@ -184,7 +184,7 @@ def execute(schedule) -> Result:
                     bad = BAD_TARGETS[op["bad_target"]]
                     try:
                         with contextlib.redirect_stdout(io.StringIO()):
-                            got = pool[j][0].search(bad, debug=False)
+                            got = pool[j][0].search(bad)
                         res.add("C18", "bad_target", "C18:py:bad_target_accepted", i, f"ValueError for a target that is not a state id ({bad!r})", f"returned {got}")
                     except ValueError:
                         pass
